@@ -28,10 +28,11 @@ ENCODED = ["twisted.names.dns:" + n for n in (
     "Record_SRV.decode", "Record_NAPTR.decode", "Record_AFSDB.decode", "Record_RP.decode", "Record_HINFO.decode",
     "Record_MINFO.decode", "Record_MX.decode", "Record_SSHFP.decode", "Record_TXT.decode", "UnknownRecord.decode",
     "Record_TSIG.decode", "DNSDatagramProtocol.datagramReceived", "DNSProtocol.dataReceived")]
-BOUNDS = {"quick": {"body": 5, "rd": 3}, "thorough": {"body": 8, "rd": 6}}
+BOUNDS = {"quick": {"body": 4, "rd": 1}, "thorough": {"body": 6, "rd": 3}}
 B = {}
-BOUNDS_TEXT = ("every message of 0..11 bytes (one symbolic length class each) and of 12 + k bytes, k <= body: id and "
-               "flag bytes fully symbolic, the four section counts 0..2, all k body bytes fully symbolic; plus one "
+BOUNDS_TEXT = ("every message of 0, 7, 11 bytes and of 12 + k bytes with the four section counts 0..2 and all k body "
+               "bytes fully symbolic: k <= 1 (quick) / 2 (thorough) with id and flag bytes fully symbolic, k = 2 / 3 "
+               "with the id bytes symbolic, k <= body with a fixed id/flags pattern; plus one "
                "answer record at the root name with fully symbolic type (0..255), rdlength low byte and <= rd "
                "symbolic rdata bytes (reaches every Record_*.decode)")
 OUTSIDE = ["more than `body` bytes after the header / section counts above 2 (the loops are the same; longer inputs "
@@ -117,21 +118,45 @@ def short(data: str) -> bool:
     return r == "allowed"       # a message shorter than its header is always refused (EOFError)
 
 
-def total(data: str) -> bool:
+HDR0 = "\x12\x34\x81\x80"
+
+
+def total(mode: int, hd: str, c: str, body: str) -> bool:
     """
-    pre: 12 <= len(data) <= 12 + B['body'] and all(ord(c) < 256 for c in data)
-    pre: ord(data[4]) == 0 and ord(data[6]) == 0 and ord(data[8]) == 0 and ord(data[10]) == 0
-    pre: ord(data[5]) <= 2 and ord(data[7]) <= 2 and ord(data[9]) <= 2 and ord(data[11]) <= 2
+    pre: 0 <= mode <= 2 and len(hd) == 4 and len(c) == 4 and len(body) <= B['body']
+    pre: all(ord(x) < 256 for x in hd + body) and all(ord(x) <= 2 for x in c)
     post: _
     """
+    # mode 2: id and flag bytes fully symbolic; mode 1: id symbolic, flags fixed; mode 0: both fixed.
+    # (a compression pointer may point into the header: every symbolic header byte is then a name byte)
+    if mode == 0:
+        hd = HDR0
+    elif mode == 1:
+        hd = hd[:2] + HDR0[2:]
+    data = hd + "\0" + c[0] + "\0" + c[1] + "\0" + c[2] + "\0" + c[3] + body
     r, m = _decode(data)
     api.obs(r)
     cover()
     if r == "ok":
         # what was decoded is bounded by the counts in the header
-        return (len(m.queries) <= ord(data[5]) and len(m.answers) <= ord(data[7])
-                and len(m.authority) <= ord(data[9]) and len(m.additional) <= ord(data[11]))
+        return (len(m.queries) <= ord(c[0]) and len(m.answers) <= ord(c[1])
+                and len(m.authority) <= ord(c[2]) and len(m.additional) <= ord(c[3]))
     return True
+
+
+def _total_shards(tier):
+    nq = ["ord(c[0]) == %d" % k for k in range(3)]
+    out = [("mode == 2", "len(body) == 0"), ("mode == 2", "len(body) == 1"),
+           ("mode == 1", "len(body) == 2"), ("mode == 0", "len(body) == 3")]
+    out += [("mode == 0", "len(body) == 4", q) for q in nq]
+    if tier == "quick":
+        return out
+    first = ["ord(body[0]) < 64", "64 <= ord(body[0]) < 192", "192 <= ord(body[0]) and ord(body[1]) < 8",
+             "192 <= ord(body[0]) and ord(body[1]) >= 8"]
+    out += [("mode == 2", "len(body) == 2", f) for f in first]
+    out += [("mode == 1", "len(body) == 3", f) for f in first]
+    out += [("mode == 0", "len(body) == %d" % k, q, f) for k in range(5, BOUNDS[tier]["body"] + 1) for q in nq for f in first]
+    return out
 
 
 def rdata(typ: str, rdlen: str, body: str) -> bool:
@@ -149,23 +174,23 @@ def rdata(typ: str, rdlen: str, body: str) -> bool:
     return True
 
 
+_TGROUPS = ["ord(typ) < 12", "12 <= ord(typ) < 20", "20 <= ord(typ) < 40", "40 <= ord(typ)"]
 HARNESSES = [
     H(short, shards=[("len(data) == 0",), ("len(data) == 7",), ("len(data) == 11",)]),
-    H(total, shards=lambda tier: [("len(data) == %d" % (12 + k),) for k in range(0, BOUNDS[tier]["body"] + 1)],
-      timeout={"quick": 120, "thorough": 1500}),
-    H(rdata, shards=lambda tier: [("len(body) == %d" % k,) for k in range(0, BOUNDS[tier]["rd"] + 1)],
+    H(total, shards=_total_shards, timeout={"quick": 120, "thorough": 1500}),
+    H(rdata, shards=lambda tier: [("len(body) == %d" % k, g) for k in range(0, BOUNDS[tier]["rd"] + 1) for g in _TGROUPS
+                                  if k > 0 or g == _TGROUPS[0]] + [("len(body) == 0", "ord(typ) >= 12")],
       timeout={"quick": 120, "thorough": 1500}),
 ]
 
 VECTORS = {
     "short": [("",), ("\x00" * 11,), ("abc",)],
     # test_dns.py: NameTests.test_rejectCompressionLoop / MessageTests.test_emptyMessage / test_emptyQuery ...
-    "total": [("\x01\x00" "\x00\x00" "\x00\x01\x00\x00\x00\x00\x00\x00" "\xc0\x0c",),
-              ("\x01\x00\x00\x00\x00\x00\x00\x00\x00\x00\x00\x00",),
-              ("\x01\x00\x09\x00\x00\x01\x00\x00\x00\x00\x00\x00" "\x00\x00\x01\x00\x03",),
-              ("\x01\x00\x09\x00\x00\x02\x00\x01\x00\x01\x00\x02" "\xc0\x0e\xc0\x0c\x00",),
-              ("\x01\x00\x09\x00\x00\x01\x00\x00\x00\x00\x00\x00" "\x01a\x00\x00\x01",),
-              ("\x01\x00\x09\x00\x00\x00\x00\x01\x00\x00\x00\x00" "\xc0\x00\x00\x00",)],
+    "total": [(2, "\x01\x00\x00\x00", "\x01\x00\x00\x00", "\xc0\x0c"), (2, "\x01\x00\x00\x00", "\x00\x00\x00\x00", ""),
+              (2, "\x01\x00\x09\x00", "\x01\x00\x00\x00", "\x00\x00\x01\x00"),
+              (1, "\xc0\x0e\x00\x00", "\x02\x01\x01\x02", "\xc0\x00\xc0\x0c"),
+              (0, "", "\x01\x00\x00\x00", "\x01a\x00\x00"), (2, "\xc0\x0c\x00\x00", "\x00\x01\x00\x00", "\xc0\x00\x00\x00"),
+              (0, "abcd", "\x02\x02\x02\x02", "\xc0\x0d\xc0\x0c")],
     "rdata": [("\x01", "\x04", "\x01\x02\x03\x04"), ("\x10", "\x03", "\x02hi"), ("\x10", "\x05", "\x02hi"),
               ("\x0b", "\x00", ""), ("\x26", "\x01", "\xff"), ("\x2c", "\x01", "a"), ("\xfa", "\x02", "\x00\x00"),
               ("\x02", "\x02", "\xc0\x0c"), ("\x02", "\x02", "\xc0\x19"), ("\x63", "\x02", "\x05ab"), ("\xff", "\x03", "abc")],
